@@ -118,9 +118,9 @@ func encIssue(b *strings.Builder, is core.ZodIssue) bool {
 	return true
 }
 
-func encIssues(list []core.ZodIssue) (string, bool) {
+func encIssues(list []core.ZodIssue, dm bool) (string, bool) {
 	var b strings.Builder
-	b.WriteString("c19 " + cfgToken + " " + strconv.Itoa(len(list)))
+	b.WriteString("c19 " + cfgToken + " " + dmToken(dm) + " " + strconv.Itoa(len(list)))
 	for _, x := range list {
 		if !encIssue(&b, x) {
 			return "", false
@@ -144,7 +144,7 @@ func sortedKeys[V any](m map[string]V) []string {
 func rList(ms []string) string {
 	h := make([]string, len(ms))
 	for i, m := range ms {
-		h[i] = hx_(m)
+		h[i] = "m" + hx_(m) // the marker keeps a list holding one empty message apart from an empty list
 	}
 	return "[" + strings.Join(h, ",") + "]"
 }
@@ -221,6 +221,45 @@ func guarded(f func() string) string {
 
 const cfgToken = "cfg=1111"
 
+// dmToken names in the op line whether the messages of the case are the library's own (an issue's Message, or
+// the DEFAULT formatter's text where that is empty): then the clause "a non-empty error never formats to an empty
+// report" is asked of all four reports unconditionally (spec column); with a user-supplied mapper / formatter,
+// which may return "", PrettifyError's report is "" exactly for one root issue with an empty message
+// (Gozod.C19.c19_go_prettify_empty_iff).
+func dmToken(dm bool) string {
+	if dm {
+		return "dm=1"
+	}
+	return "dm=0"
+}
+
+// withNe appends the clause "a non-empty error never formats to an empty report", judged on the implementation
+// alone: ne=1 iff the error has no issue, or each of the three structured reports carries at least one message
+// (every message is rendered `m<hex>`; nothing else in a rendering contains an 'm') and the pretty report is
+// not the empty string.
+func withNe(obs string, nIssues int) string {
+	ne := "1"
+	if nIssues > 0 {
+		for _, part := range strings.Split(obs, " ") {
+			kv := strings.SplitN(part, "=", 2)
+			if len(kv) != 2 {
+				continue
+			}
+			switch kv[0] {
+			case "flat", "tree", "fmt":
+				if !strings.Contains(kv[1], "m") {
+					ne = "0"
+				}
+			case "pretty":
+				if kv[1] == "P" {
+					ne = "0"
+				}
+			}
+		}
+	}
+	return obs + " ne=" + ne
+}
+
 func observe(ze *gozod.ZodError) string {
 	fl := guarded(func() string { return rFlat(gozod.FlattenError(ze)) })
 	tr := guarded(func() string { return rTree(gozod.TreeifyError(ze)) })
@@ -242,6 +281,9 @@ func observe(ze *gozod.ZodError) string {
 //	                  (no mapper entry point is exported for them) on the error whose messages are M2's outputs
 //	with-mapper-default  FlattenErrorWithMapper / TreeifyErrorWithMapper with the identity-on-Message mapper,
 //	                  PrettifyErrorWithFormatter(e, e.Formatter())
+//	blank-formatter   as custom-formatter, with a formatter that returns "" for root issues and for `custom`
+//	                  ones: an issue without a message of its own then HAS the empty message (the hypothesis
+//	                  `msg ≠ ""` of c19_nonempty / c19_go_nonempty is not met; its witness is re-derived here)
 
 type customFormatter struct{}
 
@@ -255,6 +297,26 @@ func mCF(is core.ZodIssue) string {
 		return is.Message
 	}
 	return "CF<" + string(is.Code) + "#" + strconv.Itoa(len(is.Path)) + ">"
+}
+
+type blankFormatter struct{}
+
+func (blankFormatter) FormatMessage(raw core.ZodRawIssue) string {
+	if len(raw.Path) == 0 || raw.Code == core.Custom {
+		return ""
+	}
+	return "BF<" + string(raw.Code) + ">"
+}
+
+// mBF is what defaultIssueMapper(blankFormatter{}) must compute, written here from its documentation.
+func mBF(is core.ZodIssue) string {
+	if is.Message != "" {
+		return is.Message
+	}
+	if len(is.Path) == 0 || is.Code == core.Custom {
+		return ""
+	}
+	return "BF<" + string(is.Code) + ">"
 }
 
 func m2(is core.ZodIssue) string {
@@ -282,7 +344,12 @@ func mapDeep(list []core.ZodIssue, f func(core.ZodIssue) string) []core.ZodIssue
 	return out
 }
 
-var variants = []string{"default", "error-method", "custom-formatter", "custom-mapper", "with-mapper-default"}
+var variants = []string{"default", "error-method", "custom-formatter", "custom-mapper", "with-mapper-default", "blank-formatter"}
+
+// defaultMessages: the variant's messages are the library's own (see dmToken)
+func defaultMessages(variant string) bool {
+	return variant == "default" || variant == "error-method" || variant == "with-mapper-default"
+}
 
 // observeVia returns the issue list whose messages are mapper(issue) for the variant's mapper (nil = the
 // library's default mapper: `filled` asks the library) and the observation through the variant's entry points.
@@ -305,6 +372,15 @@ func observeVia(variant string, ze *gozod.ZodError) ([]core.ZodIssue, string) {
 			part("tree", func() string { return rTree(gozod.TreeifyErrorWithMapper(ze, mCF)) }),
 			part("fmt", func() string { return rFmt(gozod.FormatError(&withCF)) }),
 			part("pretty", func() string { return "P" + hx_(gozod.PrettifyErrorWithFormatter(ze, cf)) }))
+	case "blank-formatter":
+		bf := blankFormatter{}
+		withBF := *ze
+		withBF.SetFormatter(bf)
+		return mapDeep(ze.Issues, mBF), join(
+			part("flat", func() string { return rFlat(gozod.FlattenErrorWithFormatter(ze, bf)) }),
+			part("tree", func() string { return rTree(gozod.TreeifyErrorWithMapper(ze, mBF)) }),
+			part("fmt", func() string { return rFmt(gozod.FormatError(&withBF)) }),
+			part("pretty", func() string { return "P" + hx_(gozod.PrettifyErrorWithFormatter(ze, bf)) }))
 	case "custom-mapper":
 		mapped := *ze
 		mapped.Issues = mapDeep(ze.Issues, m2)
@@ -718,7 +794,9 @@ func run(c hx.Config) error {
 
 	emit := func(list []core.ZodIssue, ze *gozod.ZodError, how string) {
 		variant := "default"
-		if !strings.HasSuffix(how, "corpus") && r.Chance(45) {
+		if i := strings.Index(how, " corpus via "); i >= 0 {
+			variant, how = how[i+len(" corpus via "):], how[:i+len(" corpus")]
+		} else if !strings.HasSuffix(how, "corpus") && r.Chance(45) {
 			variant = hx.Pick(r, variants[1:])
 		}
 		lastPanic = ""
@@ -726,7 +804,8 @@ func run(c hx.Config) error {
 		if mapped == nil {
 			mapped = filled(base, list)
 		}
-		op, _ := encIssues(mapped)
+		obs = withNe(obs, len(list))
+		op, _ := encIssues(mapped, defaultMessages(variant))
 		if lastPanic != "" {
 			how += " [a call panicked: " + lastPanic + "]"
 			o.Count("panicked")
@@ -769,18 +848,31 @@ func run(c hx.Config) error {
 	for _, l := range corpus {
 		emit(l, &gozod.ZodError{Issues: l}, "synth-literal corpus")
 	}
+	// the witness of c19_go_prettify_nonempty_full_false on the real code (a formatter that returns ""), and its
+	// neighbours: two such issues, one with a path, one with a message of its own, the default formatter
+	for _, l := range [][]core.ZodIssue{
+		{mk(core.Custom, nil, "")},
+		{mk(core.Custom, nil, ""), mk(core.InvalidType, nil, "")},
+		{mk(core.Custom, []any{"a"}, "")},
+		{mk(core.Custom, nil, "m1")},
+		{mk(core.InvalidUnion, nil, "")},
+	} {
+		emit(l, &gozod.ZodError{Issues: l}, "synth-literal corpus via blank-formatter")
+		emit(l, &gozod.ZodError{Issues: l}, "synth-literal corpus via default")
+		emit(l, &gozod.ZodError{Issues: l}, "synth-literal corpus via error-method")
+	}
 
 	// a nil *ZodError (what `var ze *gozod.ZodError` is before IsZodError fills it): it has no issues
 	emitNil := func() {
 		lastPanic = ""
 		var nz *gozod.ZodError
-		obs := observe(nz)
+		obs := withNe(observe(nz), 0)
 		how := "nil-error"
 		if lastPanic != "" {
 			how += " [a call panicked: " + lastPanic + "]"
 			o.Count("panicked")
 		}
-		o.Emit("c19 "+cfgToken+" nil # "+how+" via default", obs)
+		o.Emit("c19 "+cfgToken+" dm=1 nil # "+how+" via default", obs)
 		o.Count("source:nil-error")
 		o.Count("entry:default")
 	}
